@@ -97,6 +97,11 @@ static void check_problem(mpq_QSprob p, const std::string &input) {
     // the library represents infinity in-band by +-1e150: data of that magnitude is not a well-formed LP for it
     auto big = [](const Q &v) { return !is_fin(v) || abs(v) * 1000000 >= PINF(); };
     for (auto &c : m.cols) if (big(c.obj)) wellformed = false;
+    // a bound beyond the in-band infinity that is not the infinity value itself (8e157, say) is "infinite" for the
+    // parts of the library that compare with >= and "finite" for those that compare for equality
+    auto oddbound = [&](const Q &v) { return v != PINF() && v != NINF() && big(v); };
+    for (auto &c : m.cols) if (oddbound(c.lo) || oddbound(c.up)) wellformed = false;
+    for (auto &r : m.rows) if (r.sense == 'R' && oddbound(r.range)) wellformed = false;
     for (auto &r : m.rows) { if (big(r.rhs) || big(r.rhs + r.range)) wellformed = false; for (auto &kv : r.a) if (big(kv.second)) wellformed = false; }
     int st = 0;
     mpq_QSset_param(p, QS_PARAM_SIMPLEX_MAX_ITERATIONS, 200);
